@@ -81,6 +81,7 @@ func bigLit(n *big.Int) Term {
 
 // Enc owns the declarations of one SMT script (one function / lemma).
 type Enc struct {
+	recInfos map[string]*recInfo // per-encoder cache (one encoder per function under verification; never shared between goroutines)
 	P        *Program
 	decls    []string
 	declared map[string]bool
